@@ -129,6 +129,7 @@ func attBuild(p *attPlan) *attBuilt {
 		b.completeAt[i] = -1
 	}
 	got := make([][]ref.Range, len(p.Files))
+	sentBytes := make([]uint64, len(p.Files))
 	chunk := func(i int, c [2]int) {
 		af := b.files[i]
 		var content []byte
@@ -140,7 +141,10 @@ func attBuild(p *attPlan) *attBuilt {
 		data := append(att.ChunkHeader(d, af.Name, uint32(c[0]), uint32(c[1])), content...)
 		b.units = append(b.units, att.Unit{Data: data, File: i, Off: uint32(c[0]), Len: uint32(c[1])})
 		got[i] = append(got[i], ref.Range{Off: uint32(c[0]), Len: uint32(c[1])})
-		if b.completeAt[i] < 0 && len(ref.MissingRanges(af.Size, got[i])) == 0 {
+		// (the complement is only worth computing once enough bytes have been sent to cover the file: with tens of thousands
+		// of chunks a recomputation per chunk is quadratic)
+		sentBytes[i] += uint64(c[1])
+		if b.completeAt[i] < 0 && sentBytes[i] >= uint64(af.Size) && len(ref.MissingRanges(af.Size, got[i])) == 0 {
 			b.completeAt[i] = len(b.units) - 1
 		}
 	}
@@ -262,6 +266,7 @@ func attBuild(p *attPlan) *attBuilt {
 			b.expect = append(b.expect, general(0x1210, s))
 			for i := range got {
 				got[i] = nil
+				sentBytes[i] = 0
 				b.completeAt[i] = -1
 			}
 			// the chunks sent before the retry come first again, in the same order
